@@ -80,6 +80,8 @@ def main():
         "packageState (registry shared by all contexts)": ("nB1.cfg", negB),
         "elseNotHoisted (scripts / css items in the else-arm of a conditional attribute are not hoisted)":
             ("nA6.cfg", spec_file("RenderCtxRegistry_negCond.cfg")),
+        "markAfterRender (once handle recorded only after its content rendered: re-entrant use renders it twice)":
+            ("nC2.cfg", spec_file("RenderCtxRegistry_negOnce.cfg")),
         "onceKeyedById (rendered once handles remembered by OnceHandle.id: zero-value handles collapse)":
             ("nC1.cfg", spec_file("RenderCtxRegistry_negC.cfg")),
     }
@@ -148,6 +150,11 @@ def main():
                   and any(t["t"] == "body" for t in e["lbl"]["toks"]) and {"z1", "z2"} & set(e["lbl"]["before"])]
     if not zero_first:
         raise vlib.InfraError("no emitted edge renders a zero-value once handle for the first time after another zero-value handle")
+    reentrant = [e for e in edgesC if e["lbl"]["a"] == "OnceNested" and e["lbl"]["args"]["h"] == e["lbl"]["args"]["t"]
+                 and [t["t"] for t in e["lbl"]["toks"]] == ["body"]]
+    if not reentrant:
+        raise vlib.InfraError("no emitted edge uses a once handle inside its own, first rendered, content")
+    ck.set("once_handle_used_inside_its_own_first_rendered_content_edges", len(reentrant))
     ck.add_tlc(gC, "RenderCtxRegistry_genC (edge emission, once-handle universe: NewOnceHandle x2, zero-value x2, fixed x1)")
     pC = vlib.write_ndjson(os.path.join(sc, "edgesC.ndjson"), edgesC)
 
@@ -189,7 +196,7 @@ def main():
             raise vlib.InfraError("not every edge reached its source state in both concretisations: %d/%d, %d/%d" % (
                 sA["steps"], 2 * len(edgesA), sB["steps"], 2 * len(edgesB)))
     need = {"RenderScriptComponent", "ElementWithOnAttrs", "ElementWithClasses", "ElementWithClassAndOn", "ElementWithCondOn",
-            "ElementWithCondClass", "OnceWithBlock",
+            "ElementWithCondClass", "OnceWithBlock", "OnceNested",
             "OnceWithComponent", "StylesheetRequest", "SetNonce"}
     if set(sA["actions"]) != need or set(sB["actions"]) != need:
         raise vlib.InfraError("use kinds exercised: %s / %s" % (sorted(sA["actions"]), sorted(sB["actions"])))
